@@ -385,8 +385,11 @@ Definition direct_tag (t : tyexpr) : option (tagkind * str) :=
   | _ => None
   end.
 
+(* An enum is never renamed this way: when `enum e { .. };` is first seen, EnumType.force_the_name(None)
+   (model.py:501) stores the placeholder '$enum_e' in forcename, so the later `if not tp.forcename`
+   (cparser.py:830) is false; the declaration contexts always define an enum before any typedef uses it. *)
 Fixpoint forced_name (py_side : bool) (k : tagkind) (n : str) (tds : list (str * tyexpr)) : option str :=
-  if negb py_side then None else
+  if negb py_side || tagkind_eqb k TKenum then None else
   match tds with
   | [] => None
   | (tn, t) :: tds' =>
